@@ -68,18 +68,19 @@ type ContractSet struct {
 	Specs  map[string]*SpecFunc
 	Axioms []*Axiom
 	Opaque map[string]string
+	Ghosts map[string]string
 	Transp []string
 	Files  []string
 }
 
 func newContractSet() *ContractSet {
-	return &ContractSet{ByKey: map[string]*Contract{}, Specs: map[string]*SpecFunc{}, Opaque: map[string]string{}}
+	return &ContractSet{ByKey: map[string]*Contract{}, Specs: map[string]*SpecFunc{}, Opaque: map[string]string{}, Ghosts: map[string]string{}}
 }
 
 var clauseKW = map[string]bool{"requires": true, "ensures": true, "assigns": true, "nopanic": true, "loop": true, "trusted": true,
 	"pure": true, "props": true, "constraint": true, "hint": true, "mode": true, "fork": true, "panics-only-if": true, "inline": true, "bounded": true, "use": true}
 
-var topKW = map[string]bool{"spec": true, "axiom": true, "contract": true, "opaque": true, "transparent": true}
+var topKW = map[string]bool{"spec": true, "axiom": true, "contract": true, "opaque": true, "transparent": true, "ghost": true}
 
 var typeArgRe = regexp.MustCompile(`\[[^\]]*\]`)
 
@@ -206,6 +207,13 @@ func (cs *ContractSet) parseContractFile(file, pkgPath string) error {
 			}
 			cs.Axioms = append(cs.Axioms, &Axiom{Name: strings.TrimSpace(rest[:i]), E: e, Text: rest, Pkg: pkgPath})
 			cur = nil
+		case "ghost":
+			// ghost <name> <sort>: abstract per-object state name(obj, index), e.g. the value of wire i of a solver
+			f := strings.Fields(rest)
+			if len(f) != 2 {
+				return errf(fmt.Errorf("ghost <name> <sort>"))
+			}
+			cs.Ghosts[f[0]] = f[1]
 		case "opaque":
 			f := strings.Fields(rest)
 			if len(f) != 2 {
